@@ -454,8 +454,12 @@ class ApplicationIOController(IOController, Application):
             return
 
         # the reply to an earlier request that the application gave up on
-        # (aborted, timed out) is not the answer to the active one
-        if (apdu is not None) and (apdu.apduInvokeID != queue.active_iocb.args[0].apduInvokeID):
+        # (aborted, timed out) is not the answer to the active one.  While the
+        # active request is still on its way down the stack it has no invoke
+        # ID yet, an outcome that arrives then (an abort because the request
+        # cannot be sent) can only be its own
+        active_invoke_id = queue.active_iocb.args[0].apduInvokeID
+        if (apdu is not None) and (active_invoke_id is not None) and (apdu.apduInvokeID != active_invoke_id):
             if _debug: ApplicationIOController._debug("    - not for the active request")
             return
 
